@@ -32,6 +32,7 @@ class QCfg(ThreadCfg):
     """Private helpers of the queue class are inlined (the critical sections may be split over helper methods)."""
 
     freeze_locals = True
+    desugar_next_search = True  # remove() may find its element with next(<generator with the predicate>, None)
 
     def __init__(self, P):
         super().__init__(P, follow_attrs=False)
@@ -39,6 +40,21 @@ class QCfg(ThreadCfg):
     def consistent(self, val):
         # the deque holds the tuples put() appends: an element of it is never None
         return not any(v is True and re.fullmatch(r"self\._queue\[-?\d+\] is None", a) for a, v in val.items())
+
+
+def is_deletion(e) -> bool:
+    """An element is taken out of the deque at a place other than its head: `del self._queue[i]`, or `self._queue.remove(v)`
+    (deque.remove takes out the first element equal to v; the rules require v to be the element just found)."""
+    return (e.kind == "del" and e.extra.get("container") == "self._queue") or (e.kind == "call" and e.extra.get("func") == "self._queue.remove")
+
+
+HEAD = "self._queue[0]"
+
+
+def snap_component(t: str) -> str:
+    """A component of a snapshot is the snapshot of the component: snap<X>[k] == snap<X[k]>."""
+    m = re.fullmatch(r"snap<(.+)>((?:\[-?\d+\])+)", t)
+    return f"snap<{m.group(1)}{m.group(2)}>" if m else t
 
 
 def walk_body(ps):
@@ -61,13 +77,14 @@ def revalidate_head(ctx, RV, gpaths, ci):
             conds = [e for e in p.evs[(acq or 0) : i] if e.kind == "cond" and e.extra.get("truth")]
             # frozen locals are read through what they are snapshots of: the element component of the head read earlier
             snaps = snapshot_names(p.evs[:i])
-            cur = "self._queue[0][0]"
+            cur = f"{HEAD}[0]"
             ident = []
             for c in conds:
                 mm = re.fullmatch(r"(.+) is (.+)", c.text)
                 if mm:
                     a, b = (snap_canon(x, snaps) for x in mm.groups())
-                    if {a, b} == {cur, f"snap<{cur}>"}:
+                    # identity of the element component, or of the whole entry put() appended (a fresh tuple per put: the stronger test)
+                    if {a, b} in ({cur, f"snap<{cur}>"}, {HEAD, f"snap<{HEAD}>"}):
                         ident.append(c)
             validated = {n for c in ident for n in re.findall(r"\w+'", c.text)}
             ctx.check(
@@ -81,7 +98,7 @@ def revalidate_head(ctx, RV, gpaths, ci):
                 {"conds_in_section": [c.text for c in conds]},
             )
             ret = [e for e in p.evs[i:] if e.kind == "return" and e.depth == 0]  # of get() itself, not of a helper inlined into it
-            ctx.check(bool(ret) and snap_canon(ret[0].text, snaps) == f"snap<{cur}>" and set(re.findall(r"\w+'", ret[0].text)) <= validated, RV, f"{CLS}.get returns the validated head", "get() does not return the element it validated", f"{ci.module.relpath}:{p.evs[i].line}")
+            ctx.check(bool(ret) and snap_component(snap_canon(ret[0].text, snaps)) == f"snap<{cur}>" and set(re.findall(r"\w+'", ret[0].text)) <= validated, RV, f"{CLS}.get returns the validated head", "get() does not return the element it validated", f"{ci.module.relpath}:{p.evs[i].line}")
     if npop == 0:
         raise AnalysisError("anchor vanished: no popleft in DelayedQueue.get")
 
@@ -345,6 +362,60 @@ def shadow_counter_coherent(P, ci, fld, canon):
     return True, ""
 
 
+def search_and_delete_atomic(ctx, RA, all_paths, ci) -> None:
+    """Every deletion from the middle of the deque happens in the critical section in which the element (or its index) was found in
+    the live deque (shared by C17 and C08: otherwise get() may hand the element out between the search and the deletion)."""
+    ndel = 0
+    own = ctx.P.public_owners(CLS)
+    for m, paths in all_paths.items():
+        if own.get(m, [m]) != [m]:
+            continue  # a private helper is judged inside the public operations that call it (where it is inlined)
+
+        def scan(ps, loop_iter, released_in_iter):
+            nonlocal ndel
+            for p in ps:
+                rel = False
+                outer_iter = loop_iter
+                for e in p.evs:
+                    if e.kind == "release":
+                        rel = True
+                    if e.kind == "final_iter":
+                        loop_iter, rel = e.text, False  # the events that follow are the last iteration of that loop
+                    if e.kind == "del" and e.extra.get("container") == "self._queue":
+                        ndel += 1
+                        k = e.extra.get("key", "")
+                        live = k.startswith("$elem(enumerate(self._queue))")
+                        # ... or a counter of a while loop bounded by the live length: `while i < len(self._queue): ... del self._queue[i]`
+                        mcnt = re.fullmatch(r"(\w+) < len\(self\._queue\)", loop_iter or "")
+                        counted = bool(mcnt) and re.fullmatch(rf"{mcnt.group(1)}@L\d+", k) is not None
+                        ctx.check(
+                            (live and not rel and loop_iter == "enumerate(self._queue)") or (counted and not rel),
+                            RA,
+                            f"{CLS}.{m} :: {e.raw}",
+                            f"the index `{k[:60]}` was not obtained from the live deque inside this critical section (found over `{loop_iter}`, lock released in between: {rel or not live}): "
+                            "a concurrent get() shifts the indices and another element is deleted (one element lost, one handed out twice)",
+                            f"{ci.module.relpath}:{e.line}",
+                        )
+                    if e.kind == "call" and e.extra.get("func") == "self._queue.remove":
+                        ndel += 1
+                        v = (e.extra.get("args") or [""])[0]
+                        live = v.startswith("$elem(self._queue)")
+                        ctx.check(
+                            live and not rel,
+                            RA,
+                            f"{CLS}.{m} :: {e.raw}",
+                            f"the element `{v[:60]}` handed to deque.remove() was not found in the live deque inside this critical section (lock released in between: {rel}; found over `{loop_iter}`): "
+                            "a concurrent get() may have handed it out meanwhile — it is then delivered twice (alone and in a pair), or the removal fails",
+                            f"{ci.module.relpath}:{e.line}",
+                        )
+                    if e.kind == "loop":
+                        scan(e.extra["paths"], e.text, rel)
+                loop_iter = outer_iter
+        scan(paths, None, False)
+    if ndel == 0:
+        ctx.ok(RA, "no indexed deletion on the deque", ci.loc, nontrivial=False)
+
+
 def get_paths(P):
     ci = P.cls(CLS)
     fi = ci.methods.get("get")
@@ -470,7 +541,7 @@ def run(ctx) -> None:
             for p in ps:
                 for e in p.evs:
                     if e.kind == "wait" and not e.extra.get("timed"):
-                        waits.append((m, e, list(loop_stack)))
+                        waits.append((m, e, list(loop_stack), p))
                     if e.kind == "loop":
                         find_waits(e.extra["paths"], loop_stack + [e])
         find_waits(paths, [])
@@ -478,16 +549,19 @@ def run(ctx) -> None:
         raise AnalysisError("anchor vanished: no untimed Condition.wait() in DelayedQueue")
     pred_fields: set[str] = set()
     seen_w = set()
-    for m, w, stack in waits:
+    from ..monitor import predicate_fields
+
+    per_wait: dict[int, set] = {}
+    for m, w, stack, p in waits:
+        f_ = predicate_fields(P, CLS, p.evs, w) if stack else set()
+        per_wait[id(w.node)] = f_ if id(w.node) not in per_wait else (per_wait[id(w.node)] & f_)
+    for m, w, stack, p in waits:
         if id(w.node) in seen_w:
             continue
         seen_w.add(id(w.node))
-        inner = [L for L in stack if L.extra.get("kind") == "while" and L.text != "True"]
-        fields = set()
-        if inner:
-            fields = set(re.findall(r"self\.(_\w+)", inner[-1].raw))
+        fields = per_wait[id(w.node)]  # what is tested under the lock before every wait, on the iteration that waits
         pred_fields |= fields
-        ctx.check(bool(fields), RM, f"{CLS}.{m} wait-in-predicate-loop", "untimed wait() is not the body of a loop whose condition reads shared state (a notify before the wait is lost)", f"{ci.module.relpath}:{w.line}", {"predicate": inner[-1].raw if inner else None})
+        ctx.check(bool(fields), RM, f"{CLS}.{m} wait-in-predicate-loop", "untimed wait() is not inside a loop that tests shared state under the lock before every wait (a notify before the wait is lost)", f"{ci.module.relpath}:{w.line}", {"loops": [L.raw for L in stack], "predicate_fields": sorted(fields)})
     # writers of predicate fields and notifiers
     for m, paths in all_paths.items():
         writes_any = set()
@@ -595,8 +669,14 @@ def run(ctx) -> None:
     okr, msgr = True, ""
     ndel2 = 0
     for p in rp_:
-        dels = [i for i, e in enumerate(p.evs) if e.kind == "del" and e.extra.get("container") == "self._queue"]
+        dels = [i for i, e in enumerate(p.evs) if is_deletion(e)]
         matched = [e for e in p.evs if e.kind == "cond" and re.fullmatch(r"predicate\(.*\)", e.text)]
+        for i in dels:
+            if p.evs[i].kind == "call":
+                # removal by value: the value must be the very element the predicate held for (its entry)
+                v = (p.evs[i].extra.get("args") or [""])[0]
+                if not (matched and matched[-1].extra.get("truth") and v and v in matched[-1].text):
+                    okr, msgr = False, f"`self._queue.remove({v[:40]})` takes out something other than the element the predicate held for"
         ret = p.outcome[1] if p.outcome[0] == "return" else None
         rtxt = ast.unparse(ret) if ret is not None else None
         if dels:
@@ -628,39 +708,7 @@ def run(ctx) -> None:
 
     # ---------------------------------------------------------------- indexed deletion is atomic with the search
     RA = ctx.rule("C17/search-and-delete-atomic", "an element is deleted by index only inside the critical section in which that index was found by enumerating the live deque (no release in between, no snapshot)", floor=1)
-    ndel = 0
-    for m, paths in all_paths.items():
-        def scan(ps, loop_iter, released_in_iter):
-            nonlocal ndel
-            for p in ps:
-                rel = False
-                outer_iter = loop_iter
-                for e in p.evs:
-                    if e.kind == "release":
-                        rel = True
-                    if e.kind == "final_iter":
-                        loop_iter, rel = e.text, False  # the events that follow are the last iteration of that loop
-                    if e.kind == "del" and e.extra.get("container") == "self._queue":
-                        ndel += 1
-                        k = e.extra.get("key", "")
-                        live = k.startswith("$elem(enumerate(self._queue))")
-                        # ... or a counter of a while loop bounded by the live length: `while i < len(self._queue): ... del self._queue[i]`
-                        mcnt = re.fullmatch(r"(\w+) < len\(self\._queue\)", loop_iter or "")
-                        counted = bool(mcnt) and re.fullmatch(rf"{mcnt.group(1)}@L\d+", k) is not None
-                        ctx.check(
-                            (live and not rel and loop_iter == "enumerate(self._queue)") or (counted and not rel),
-                            RA,
-                            f"{CLS}.{m} :: {e.raw}",
-                            f"the index `{k[:60]}` was not obtained from the live deque inside this critical section (found over `{loop_iter}`, lock released in between: {rel or not live}): "
-                            "a concurrent get() shifts the indices and another element is deleted (one element lost, one handed out twice)",
-                            f"{ci.module.relpath}:{e.line}",
-                        )
-                    if e.kind == "loop":
-                        scan(e.extra["paths"], e.text, rel)
-                loop_iter = outer_iter
-        scan(paths, None, False)
-    if ndel == 0:
-        ctx.ok(RA, "no indexed deletion on the deque", ci.loc, nontrivial=False)
+    search_and_delete_atomic(ctx, RA, all_paths, ci)
 
     # ---------------------------------------------------------------- FIFO ops
     ops = {}
@@ -678,9 +726,9 @@ def run(ctx) -> None:
     ctx.extra["deque_ops"] = ops
     ctx.check(set(ops.get("append", [])) == {"put"} or ("put" in ops.get("append", [])), RF, "enqueue=append", f"put() does not enqueue with append ({ops})", ci.loc)
     ctx.check("get" in ops.get("popleft", []), RF, "dequeue=popleft", f"get() does not dequeue with popleft ({ops})", ci.loc)
-    bad = {k: v for k, v in ops.items() if k in ("appendleft", "pop", "insert", "rotate", "reverse", "extendleft", "clear", "remove", "sort")}
+    bad = {k: v for k, v in ops.items() if k in ("appendleft", "pop", "insert", "rotate", "reverse", "extendleft", "clear", "sort")}
     ctx.check(not bad, RF, "no order-changing deque operation", f"order-changing operations on the deque: {bad}", ci.loc)
-    ctx.check(set(ops.get("del[]", [])) <= {"remove"}, RF, "indexed deletion only in remove()", f"indexed deletion in {ops.get('del[]')}", ci.loc)
+    ctx.check(set(ops.get("del[]", []) + ops.get("remove", [])) <= {"remove"}, RF, "indexed deletion only in remove()", f"deletion from the middle of the deque (del[] / deque.remove) in {sorted(set(ops.get('del[]', []) + ops.get('remove', [])))}", ci.loc)
     ctx.assumptions += ["threading.Condition/Lock semantics", "collections.deque append/popleft are FIFO"]
 
 
